@@ -28,6 +28,12 @@ func init() {
 
 func (r *Run) c06Call(name string, input []byte, f func()) {
 	r.Steps++
+	before := LibSteps()
+	defer func() {
+		if r.Viol == nil {
+			r.c06Work(name, input, LibSteps()-before)
+		}
+	}()
 	if lp := call(f); lp != nil {
 		r.Check()
 		r.Fail("panic/"+lp.Class+"/"+lp.Frame, "%s panicked: %v\ninnermost go-cose frame: %s\ninput: %s", name, lp.Value, lp.Frame, hexShort(input))
@@ -154,9 +160,7 @@ func scenarioC06(r *Run) {
 		dec := &Decoders[i]
 		dst := dec.New()
 		var err error
-		before := LibSteps()
 		r.c06Call(dec.Name+".UnmarshalCBOR", input, func() { err = dec.Into(dst, input) })
-		r.c06Work(dec.Name+".UnmarshalCBOR", input, LibSteps()-before)
 		r.Logf("%s: %s", dec.Name, errTag(err))
 		if err != nil {
 			continue
